@@ -34,6 +34,7 @@ RULE += (' Also: the plain-__anext__ source flavour (fails AND ends at the call)
 RULE += (' Also: callables that are classes (calling creates an awaitable job).')
 RULE += (' Also: sources failing with a RuntimeError caused by Stop(Async)Iteration; a sized class source.')
 RULE += (' Also: a synchronous mapping handed over as an iterable (iterated over its keys; never asked for values, keys() or items()).')
+RULE += (' Also: managers whose enter swaps the exit their instance answers with (the exit taken together with the manager runs, in both flavours).')
 ASSUMPTIONS = ["baseline (list + def) behaviour itself is judged by C01/C02, not here"]
 EXHAUSTIVE = {"quick": False, "thorough": False}
 N_SPECS = {"quick": 6000, "thorough": 200000}
@@ -125,7 +126,7 @@ def cases(tier, seed, shard, nshards):
                "dup": rng.random() < 0.35,
                # managers whose exit is a staticmethod / classmethod (a class-level resource), callbacks registered
                # without any arguments: the flavours still agree
-               "bind": rng.choice(["method", "method", "static", "class"]), "noargs": rng.random() < 0.3,
+               "bind": rng.choice(["method", "method", "static", "class", "rearm"]), "noargs": rng.random() < 0.3,
                "enter_exc": rng.choice(["EnterFailed", "AttributeError", "TypeError", "LookupError"])}
 
 
@@ -292,7 +293,22 @@ def run_exitstack(case, stats):
             async def __aexit__(cls, et, ev, tb):
                 return leave(et, ev, tb)
 
+        class SyncRearm(SyncCM):
+            # entering swaps the exit the INSTANCE answers with: which one runs is decided when the stack takes the manager
+            def __enter__(self):
+                self.__exit__ = lambda et, ev, tb: CTX.ev("cm-exit-rearmed", i) or True
+                return enter()
+
+        class AsyncRearm(AsyncCM):
+            async def __aenter__(self):
+                async def rearmed(et, ev, tb):
+                    return CTX.ev("cm-exit-rearmed", i) or True
+                self.__aexit__ = rearmed
+                return enter()
+
         bind = case.get("bind", "method")
+        if bind == "rearm":
+            return SyncRearm() if fl == "def" else AsyncRearm()
         if bind == "static":
             return SyncStatic() if fl == "def" else AsyncStatic()
         if bind == "class":
@@ -361,7 +377,7 @@ def run_exitstack(case, stats):
             if e[0] == "call":
                 # exception arguments are compared by type name only (canon gives ("E", name))
                 trace.append((e[1], tuple(str(x[1] if x[0] == "v" else x[0]) for x in e[2][1:])))
-            elif e[0] in ("cm-enter", "cm-exit", "entered", "enter-failure-handled"):
+            elif e[0] in ("cm-enter", "cm-exit", "cm-exit-rearmed", "entered", "enter-failure-handled"):
                 trace.append(tuple(map(str, e)))
         return outcome, trace, list(CTX.foreign)
 
